@@ -336,16 +336,16 @@ func (p *tokParser) one(depth int) (Tok, error) {
 
 // Resp is a parsed server response line.
 type Resp struct {
-	Line   WLine
-	Tag    string // "*", "+" or a tag
-	Num    uint32 // for "* n EXISTS/EXPUNGE/FETCH/RECENT"
-	HasNum bool
-	Name   string // upper-cased response name or status (OK NO BAD BYE PREAUTH EXISTS FETCH ...)
-	Code   string // response code name (upper-cased) for status responses
+	Line    WLine
+	Tag     string // "*", "+" or a tag
+	Num     uint32 // for "* n EXISTS/EXPUNGE/FETCH/RECENT"
+	HasNum  bool
+	Name    string // upper-cased response name or status (OK NO BAD BYE PREAUTH EXISTS FETCH ...)
+	Code    string // response code name (upper-cased) for status responses
 	CodeArg string
-	Text   string // resp-text after the code
-	Toks   []Tok  // data tokens after the name (non-status responses)
-	Err    string // malformed
+	Text    string // resp-text after the code
+	Toks    []Tok  // data tokens after the name (non-status responses)
+	Err     string // malformed
 }
 
 func isStatus(n string) bool {
